@@ -252,6 +252,16 @@ def decide(pid, cfg, tier, seed, args):
                         bad.add(f['qual'])
             if bad:
                 unstable.append({"seed": s, "failing": sorted(bad)})
+    # ---- thorough: the self-test catalogue for this property (scratch copies; expected verdicts must be met)
+    selftest_log = []
+    if tier == 'thorough' and not violations and not undecided and os.path.abspath(args.repo) == '/repo' and not os.environ.get('VX_IN_SELFTEST'):
+        env = dict(os.environ, VX_IN_SELFTEST='1', VERIF_TIER='quick')
+        st = subprocess.run([os.path.join(VERIF, 'bin', 'selftest'), '--property', pid], capture_output=True, text=True, env=env)
+        selftest_log = [l for l in st.stdout.split("\n") if l.strip()]
+        if st.returncode != 0:
+            for l in selftest_log:
+                if 'MISMATCH' in l or 'DOES NOT APPLY' in l:
+                    unstable.append({"seed": "selftest", "failing": [l[:200]]})
     # ---- report
     rc = 0
     os.makedirs(os.path.join(VERIF, 'replays'), exist_ok=True)
@@ -326,6 +336,7 @@ def decide(pid, cfg, tier, seed, args):
             "assumption_scan": scan,
             "known_findings_reported": [k['what'] for k in known_reported],
             "unstable": unstable,
+            "selftest": selftest_log,
             "bounded": [],
             "exhaustive": False,
         },
